@@ -73,7 +73,7 @@ def _sample_case(draw):
     bins = None if form == 'none' else (draw(st.integers(2, 20)) if form == 'count' else [draw(nb), draw(nb)])
     return dict(arm='sample', spec=spec, sel=sel, spell=[draw(st.sampled_from(['name', 'pos', 'neg'])) for _ in range(2)],
                 bins=bins, xscale=draw(st.sampled_from(['linear', 'log', 'logicle'])),
-                yscale=draw(st.sampled_from(['linear', 'log', 'logicle'])), to_rfi=draw(st.booleans()), derived=draw(st.sampled_from([None, None, None, ['slice', 1], ['slice', 2], ['list', 1]])))
+                yscale=draw(st.sampled_from(['linear', 'log', 'logicle'])), to_rfi=draw(st.booleans()), derived=draw(st.sampled_from([None, None, None, ['slice', 1], ['slice', 2], ['list', 1], ['perm', 1], ['permname', 2]])))
 
 
 @st.composite
